@@ -545,3 +545,29 @@ package runtime
 //@   exits string when flags >= complyflagsLimit
 //@   exits_ensures f.safetyFlags == old(f.safetyFlags)
 //@   ensures f.safetyFlags == old(f.safetyFlags) | flags && flags < complyflagsLimit
+
+// ---------------------------------------------------------------------------
+// C05: who may catch a ContextTerminationError
+// ---------------------------------------------------------------------------
+// The only places allowed to turn a termination into something else are the
+// context boundary itself (CallContext: the kill is reported through the
+// returned context's status), closing the runtime, and the coroutine body
+// wrapper (which hands the termination to the resuming thread).  Every other
+// recover() in the module is checked by the effect analysis: it must re-panic
+// anything that is not its own panic type, or protect code that cannot
+// terminate.
+
+//@ func (*Thread).CallContext
+//@   prop C05
+//@   effectsonly
+//@   effects catches-termination
+
+//@ func (*Runtime).Close
+//@   prop C05
+//@   effectsonly
+//@   effects catches-termination
+
+//@ func (*Thread).Start
+//@   prop C05
+//@   effectsonly
+//@   effects catches-termination
